@@ -406,7 +406,7 @@ def _exists_w(f, *witness):
     for nm, w in zip(names, witness):
         if z3.is_expr(w):
             srt = w.sort()
-        elif nm[0] == 'A':
+        elif nm[0] in 'AB':
             srt = z3.ArraySort(z3.IntSort(), z3.RealSort())     # convention: A.. = real sequence
         elif nm in ('pos', 'i', 'j', 'k', 'n', 'm'):
             srt = z3.IntSort()
